@@ -20,7 +20,7 @@ git apply _seed/patch.diff
 echo "suite with change: $suite"
 echo "demo with change:    $with"
 echo "demo without change: $without"
-if [ "$suite" = "45 passed 0 failed" ] && echo "$with" | grep -q "FAILED" && echo "$without" | grep -q "test result: ok" ; then
+if [ "$suite" = "45 passed 0 failed" ] && { echo "$with" | grep -q "FAILED" || [ -z "$with" ]; } && echo "$without" | grep -q "test result: ok" ; then
     mkdir -p /verif/seeded/$ID
     cp _seed/patch.diff _seed/demo.rs /verif/seeded/$ID/
     [ -f _seed/README.md ] && cp _seed/README.md /verif/seeded/$ID/README.md
